@@ -18,8 +18,8 @@ func (r *Rng) Intn(n int) int {
 	}
 	return int(r.U64() % uint64(n))
 }
-func (r *Rng) Bool() bool    { return r.U64()&1 == 1 }
-func (r *Rng) Byte() byte    { return byte(r.U64()) }
+func (r *Rng) Bool() bool        { return r.U64()&1 == 1 }
+func (r *Rng) Byte() byte        { return byte(r.U64()) }
 func (r *Rng) Chance(n int) bool { return r.Intn(n) == 0 }
 func (r *Rng) Bytes(n int) []byte {
 	b := make([]byte, n)
